@@ -159,7 +159,7 @@ CHECKS["C05"] = dict(
     jobs=[
         dict(pkg="pkg/twcc", entry="HC05Chunks", params=dict(symbols=16), require_covers=["chunk flushed"], thorough=dict(params=dict(symbols=24))),
         dict(pkg="pkg/twcc", entry="HC05Packer", params=dict(steps=3, wire=1, dchoices=6), require_covers=["packet built"], thorough=dict(params=dict(steps=4, dchoices=6), timeout=3400)),
-        dict(pkg="pkg/twcc", entry="HC05Recorder", params=dict(records=3, span=3), require_covers=["feedback built", "duplicate ignored"], thorough=dict(params=dict(records=4, span=3), timeout=3400)),
+        dict(pkg="pkg/twcc", entry="HC05Recorder", params=dict(records=3, span=3), require_covers=["feedback built", "duplicate ignored"], thorough=dict(params=dict(records=4, span=2), flags=["-maxpaths", "3000000"], timeout=3400)),
     ],
     bounds=dict(quick="chunk packer: ANY sequence of 16 status symbols (0/1/2), emitted chunks decode to the driven sequence and are well formed; feedback packer: 3 received packets with gaps of 0 or 2 lost in between, arrival steps case-split over a table of boundary values (0, 124/125 us rounding, 255.5-unit small/large border, 64 ms, int16 limit, negative), 3 reference times, symbolic base sequence number (wrap) -> independent decode within 125 us, one delta per received status, real rtcp Marshal/Unmarshal round trip and declared length; recorder: 3 records (offsets 0..3 from 2 bases incl. wrap, duplicates, reordering, 4 arrival steps up to 70 ms) with a build after a case-split prefix and at the end",
                 thorough="24 symbols; 4 packer steps; 4 records"),
